@@ -21,6 +21,89 @@ def _self_assigns(fn, attr):
     return out
 
 
+
+def _bind(call, params, what):
+    """map the arguments of an ast.Call onto the callee's parameter names (positional then keyword); returns {param: source}"""
+    need(isinstance(call, ast.Call), what + ': not a call')
+    need(len(call.args) <= len(params) and not any(isinstance(a, ast.Starred) for a in call.args), what + ': unexpected positional arguments')
+    out = {}
+    for name, a in zip(params, call.args):
+        out[name] = ast.unparse(a)
+    for kw in call.keywords:
+        need(kw.arg in params and kw.arg not in out, what + ': unexpected keyword %r' % kw.arg)
+        out[kw.arg] = ast.unparse(kw.value)
+    return out
+
+
+def _params(fn, drop_self=False):
+    need(not fn.args.vararg and not fn.args.kwarg and not fn.args.kwonlyargs and not fn.args.posonlyargs, fn.name + ': unexpected signature')
+    names = [a.arg for a in fn.args.args]
+    return names[1:] if drop_self else names
+
+
+def _lookup_pins(cb):
+    """how callbacks.tokenize obtains brackets / pipeSyntax / quotes for (channel, network): every lookup must hand
+    tokenize's `network` to the network parameter and `channel` to the channel parameter of Value.getSpecific,
+    directly or through conf.get.  Read the signatures of conf.get and getSpecific from the source too."""
+    wrap = find_def(cb, 'tokenize')
+    need(_params(wrap) == ['s', 'channel', 'network'], 'callbacks.tokenize signature changed: %r' % _params(wrap))
+    gs = find_def(tree('src/registry.py'), 'getSpecific', 'Value')
+    gs_params = _params(gs, drop_self=True)
+    need(gs_params[:2] == ['network', 'channel'] and set(gs_params) <= {'network', 'channel', 'check'},
+         'registry.Value.getSpecific signature changed: %r' % gs_params)
+    cg = find_def(tree('src/conf.py'), 'get')
+    cg_params = _params(cg)
+    need(sorted(cg_params) == ['channel', 'group', 'network'] and cg_params[0] == 'group', 'conf.get signature changed: %r' % cg_params)
+    need(len(cg.body) == 1 and isinstance(cg.body[0], ast.Return) and isinstance(cg.body[0].value, ast.Call)
+         and isinstance(cg.body[0].value.func, ast.Call), 'conf.get body is not `return group.getSpecific(...)()`')
+    inner = cg.body[0].value.func
+    need(ast.unparse(inner.func) == 'group.getSpecific', 'conf.get does not call group.getSpecific')
+    b = _bind(inner, gs_params, 'conf.get -> getSpecific')
+    need(b.get('network') == 'network' and b.get('channel') == 'channel' and set(b) <= {'network', 'channel'},
+         'conf.get passes %r to getSpecific' % b)
+
+    def resolve(expr, what):
+        """expr evaluates a registry value for (network, channel): returns (registry path, {network:..., channel:...})"""
+        if isinstance(expr, ast.Call) and isinstance(expr.func, ast.Call) and isinstance(expr.func.func, ast.Attribute) \
+                and expr.func.func.attr == 'getSpecific':
+            need(not expr.args and not expr.keywords, what + ': value call with arguments')
+            return ast.unparse(expr.func.func.value), _bind(expr.func, gs_params, what)
+        if isinstance(expr, ast.Call) and ast.unparse(expr.func) == 'conf.get':
+            b = _bind(expr, cg_params, what)
+            need('group' in b, what + ': conf.get without group')
+            return b.pop('group'), b
+        need(False, what + ': unrecognised lookup ' + ast.unparse(expr))
+
+    names = {}
+    for n in ast.walk(wrap):
+        if isinstance(n, ast.Assign) and len(n.targets) == 1 and isinstance(n.targets[0], ast.Name):
+            names.setdefault(n.targets[0].id, []).append(n.value)
+    need(len(names.get('nested', [])) == 1 and ast.unparse(names['nested'][0]) == 'conf.supybot.commands.nested',
+         'tokenize: nested is no longer conf.supybot.commands.nested')
+    ifs = [n for n in wrap.body if isinstance(n, ast.If) and ast.unparse(n.test) == 'nested()']
+    need(len(ifs) == 1 and not ifs[0].orelse, 'tokenize: expected one `if nested():`')
+    # brackets: the one non-constant assignment, inside `if nested():`
+    bas = [v for v in names.get('brackets', []) if not isinstance(v, ast.Constant)]
+    need(len(bas) == 1 and any(bas[0] is getattr(x, 'value', None) for x in ifs[0].body), 'tokenize: brackets lookup moved')
+    path, b = resolve(bas[0], 'tokenize brackets lookup')
+    need(path == 'nested.brackets' and b == {'network': 'network', 'channel': 'channel'},
+         'tokenize: brackets looked up as %s with %r (network/channel swapped or dropped?)' % (path, b))
+    # pipe: `if <lookup>: pipe = True` inside `if nested():`
+    pifs = [n for n in ifs[0].body if isinstance(n, ast.If)]
+    need(len(pifs) == 1 and ast.unparse(pifs[0].body[0]) == 'pipe = True' and len(pifs[0].body) == 1 and not pifs[0].orelse,
+         'tokenize: pipeSyntax test changed')
+    path, b = resolve(pifs[0].test, 'tokenize pipeSyntax lookup')
+    need(path == 'nested.pipeSyntax' and b == {'network': 'network', 'channel': 'channel'},
+         'tokenize: pipeSyntax looked up as %s with %r' % (path, b))
+    need(len(names.get('quotes', [])) == 1, 'tokenize: quotes assigned more than once')
+    path, b = resolve(names['quotes'][0], 'tokenize quotes lookup')
+    need(path == 'conf.supybot.commands.quotes' and b == {'network': 'network', 'channel': 'channel'},
+         'tokenize: quotes looked up as %s with %r' % (path, b))
+    tk = [n for n in ast.walk(wrap) if isinstance(n, ast.Call) and ast.unparse(n.func) == 'Tokenizer']
+    need(len(tk) == 1 and _bind(tk[0], ['brackets', 'pipe', 'quotes'], 'Tokenizer(...)') ==
+         {'brackets': 'brackets', 'pipe': 'pipe', 'quotes': 'quotes'}, 'tokenize: Tokenizer(...) arguments changed')
+
+
 @table('T13')
 def gen_T13():
     cb = tree('src/callbacks.py')
@@ -48,6 +131,7 @@ def gen_T13():
     rs = [n for n in ast.walk(trys[0].handlers[0]) if isinstance(n, ast.Raise)]
     need(len(rs) == 1 and isinstance(rs[0].exc, ast.Call) and ast.unparse(rs[0].exc.func) == 'SyntaxError',
          'callbacks.tokenize handler no longer raises SyntaxError')
+    _lookup_pins(cb)
     # _handleToken: the codec chain and the bare except around the latin-1 step
     ht = find_def(cb, '_handleToken', 'Tokenizer')
     src = ast.unparse(ht)
